@@ -375,6 +375,32 @@ pub fn run() {
     if not replay or "twin:field_level" in json.load(open(replay))["key"]:
         mods.append(("twin:field_level", fl))
         meta["twin:field_level"] = ([], set(), "field_level", None)
+    # types that REFER TO THEMSELVES (through a const parameter, a lifetime, a type parameter, no parameter at all): std's derive
+    # bounds type parameters only, so such a type is Debug; a derive that bounds a field type mentioning the type itself
+    # (`Option<Box<Chunk<N>>>: Debug`) sends the trait solver in a circle (E0275)
+    rec_types = [
+        ("Chunk", "pub struct Chunk<const N: usize> { pub items: [u8; N], pub next: Option<Box<Chunk<N>>> }",
+         "{m}::Chunk::<2> {{ items: [1, 2], next: Some(Box::new({m}::Chunk::<2> {{ items: [3, 4], next: None }})) }}"),
+        ("Tree", "pub enum Tree<const B: usize> { Leaf(u8), Node(Vec<Tree<B>>) }",
+         "{m}::Tree::<3>::Node(vec![{m}::Tree::Leaf(1), {m}::Tree::Node(vec![])])"),
+        ("Link", "pub struct Link<'a> { pub v: u8, pub prev: Option<&'a Link<'a>> }",
+         "{m}::Link {{ v: 2, prev: Some(&{m}::Link {{ v: 1, prev: None }}) }}"),
+        ("Rose", "pub struct Rose { pub v: u8, pub kids: Vec<Rose> }",
+         "{m}::Rose {{ v: 1, kids: vec![{m}::Rose {{ v: 2, kids: vec![] }}] }}"),
+        # (the same through a TYPE parameter: see the known finding C06-recursive-type-param)
+        ("Gen", "pub struct Gen<T> { pub v: T, pub next: Option<Box<Gen<T>>> }",
+         "{m}::Gen {{ v: 1u8, next: Some(Box::new({m}::Gen {{ v: 2u8, next: None }})) }}")]
+    for n, decl_, v in rec_types:
+        k = f"twin:recursive:{n}"
+        if replay and k not in json.load(open(replay))["key"]:
+            continue
+        rec_rows = ", ".join(f'("{n}{sp}", format!("{{:{sp}?}}", {v.format(m="s")}), format!("{{:{sp}?}}", {v.format(m="d")}))' for sp in ("", "#", "08", "x"))
+        rec = ("use super::*;\npub mod s { use super::*; #[derive(Debug)] " + decl_ + " }\npub mod d { use super::*; #[derive(derive_more::Debug)] " + decl_ +
+               " }\npub fn run() {\n    let rows: Vec<(&str, String, String)> = vec![" + rec_rows + "];\n"
+               "    let bad: Vec<String> = rows.iter().filter(|(_, a, b)| a != b).map(|(sp, a, b)| format!(\"[{}, {}, {}]\", q(sp), q(a), q(b))).collect();\n"
+               "    println!(\"OBS {{\\\"k\\\": {}, \\\"n\\\": {}, \\\"bad\\\": [{}]}}\", q(" + json.dumps(k) + "), rows.len(), bad.join(\", \"));\n}")
+        mods.append((k, rec))
+        meta[k] = ([], set(), "recursive_" + n, None)
     log(f"[C06] {len(cases)} builder scripts replayed, {len(mods)} twin types x {len(specs)} specs")
     nsh = 4
     shards = [mods[i::nsh] for i in range(nsh)]
@@ -396,7 +422,8 @@ pub fn run() {
             if k in failed:
                 chk.deviation(k, "twin types do not compile: " + failed[k][0]["message"][:200],
                               case={"types": tw and [tw['st'][0], tw['dm'][0]]}, expected="compiles", observed=failed[k][:3],
-                              tags={"kind": "compile_error"})
+                              tags={"kind": "compile_error", "class": ("recursive_type_param" if k == "twin:recursive:Gen" and
+                                                                       "overflow evaluating" in failed[k][0]["message"] else "")})
                 continue
             o = obs2.get(k)
             if o is None or o.get("crashed"):
